@@ -798,3 +798,133 @@ func runR83(c *Ctx) {
 		c.bad(fnm+"|statement text", p.instrPos(exec), "the executed statement is not the result of the module's Insert builder")
 	}
 }
+
+// ---- R84: the value of a comma-ok lookup or assertion is used only where ok holds ----
+
+func init() {
+	register(&Rule{ID: "R84", Name: "OK-THEN-USE", Floor: 60,
+		Text: "for every comma-ok map lookup and comma-ok type assertion in the module whose ok result is branched on: every use of the value result lies on the ok==true side of that branch (edge dominance), or merges through a phi whose other inputs do. A negated or dropped test (`if ok { return error }`) hands the zero value (a nil column, an empty name entry) to the code that follows: a panic or a silently wrong result instead of the `unknown column` / `wrong type` error",
+		Run:  runR84})
+}
+
+func runR84(c *Ctx) {
+	p := c.P
+	for _, fn := range p.Funcs {
+		fnm := fname(fn)
+		eachInstr(fn, func(in ssa.Instruction) {
+			var tuple ssa.Value
+			what := ""
+			switch t := in.(type) {
+			case *ssa.Lookup:
+				if t.CommaOk {
+					tuple, what = t, "lookup"
+				}
+			case *ssa.TypeAssert:
+				if t.CommaOk {
+					tuple, what = t, "assertion to "+types.TypeString(t.AssertedType, shortQual)
+				}
+			}
+			if tuple == nil {
+				return
+			}
+			var val, okv *ssa.Extract
+			for _, r := range *tuple.Referrers() {
+				if ex, ok := r.(*ssa.Extract); ok {
+					if ex.Index == 0 {
+						val = ex
+					} else {
+						okv = ex
+					}
+				}
+			}
+			if val == nil || okv == nil {
+				return
+			}
+			// the branch on ok
+			var trueEdges [][2]*ssa.BasicBlock
+			for _, r := range *okv.Referrers() {
+				iff, ok := r.(*ssa.If)
+				if !ok {
+					// ok used otherwise (stored, returned, combined): out of scope
+					if _, isDbg := r.(*ssa.DebugRef); !isDbg {
+						if u, isNot := r.(*ssa.UnOp); isNot && u.Op == token.NOT {
+							for _, r2 := range *u.Referrers() {
+								if iff2, ok := r2.(*ssa.If); ok {
+									trueEdges = append(trueEdges, [2]*ssa.BasicBlock{iff2.Block(), iff2.Block().Succs[1]})
+								}
+							}
+							continue
+						}
+						return
+					}
+					continue
+				}
+				trueEdges = append(trueEdges, [2]*ssa.BasicBlock{iff.Block(), iff.Block().Succs[0]})
+			}
+			if len(trueEdges) == 0 {
+				return
+			}
+			key := fnm + "|" + what
+			underOk := func(b *ssa.BasicBlock) bool {
+				for _, e := range trueEdges {
+					si := 0
+					if e[0].Succs[1] == e[1] {
+						si = 1
+					}
+					if edgeDominates(e[0], si, b) {
+						return true
+					}
+				}
+				return false
+			}
+			bad := ""
+			for _, r := range *val.Referrers() {
+				switch u := r.(type) {
+				case *ssa.DebugRef:
+					continue
+				case *ssa.Phi:
+					// the edge carrying the value must come from the ok side
+					for i, e := range u.Edges {
+						if e == ssa.Value(val) {
+							pred := u.Block().Preds[i]
+							if !underOk(pred) && !(len(trueEdges) > 0 && pred == trueEdges[0][0] && u.Block() == trueEdges[0][1]) {
+								bad = p.instrPos(u)
+							}
+						}
+					}
+				case *ssa.Store:
+					// `v, ok := m[k]` spilled into a local variable: judge the reads of that variable
+					if al, isAl := u.Addr.(*ssa.Alloc); isAl && u.Val == ssa.Value(val) {
+						for _, r2 := range *al.Referrers() {
+							if r2 == ssa.Instruction(u) {
+								continue
+							}
+							if _, isDbg := r2.(*ssa.DebugRef); isDbg {
+								continue
+							}
+							if st2, isSt := r2.(*ssa.Store); isSt && st2.Addr == ssa.Value(al) {
+								continue // another assignment of the variable
+							}
+							if !underOk(r2.Block()) {
+								bad = p.instrPos(r2)
+							}
+						}
+						continue
+					}
+					if !underOk(r.Block()) {
+						bad = p.instrPos(r)
+					}
+				default:
+					if !underOk(r.Block()) {
+						bad = p.instrPos(r)
+					}
+				}
+			}
+			if bad == "" {
+				c.ok(key, p.instrPos(in), "the value is used only where ok holds")
+			} else {
+				c.bad(key, p.instrPos(in), fmt.Sprintf("the value of this %s is used at %s although ok is not known to hold there: when the key is missing / the type differs the zero value is used instead of reporting the error", what, bad))
+			}
+		})
+	}
+}
